@@ -17,6 +17,7 @@ func init() {
 		ruleDef{"C10.R4", c10r4},
 		ruleDef{"C10.R5", c10r5},
 		ruleDef{"C10.R6", c10r6},
+		ruleDef{"C10.R7", c10r7},
 	)
 }
 
@@ -676,3 +677,9 @@ func c10r6(r *R) {
 var reviewedPanics2 = map[string]string{}
 
 var _ = fmt.Sprint
+
+// R7: bounds discipline on goroutines without a recover frame: every index / slice / fixed-width decode executed there
+// is justified by the length checks that dominate it (or individually reviewed).
+func c10r7(r *R) {
+	boundsRule(r, "C10.R7", unprotectedFuncs(r), 40)
+}
